@@ -25,6 +25,7 @@ import (
 
 	"github.com/dgraph-io/badger/v4/pb"
 	"github.com/dgraph-io/badger/v4/table"
+	"github.com/dgraph-io/badger/v4/verifhook"
 	"github.com/dgraph-io/badger/v4/y"
 	"github.com/dgraph-io/ristretto/v2/z"
 )
@@ -59,6 +60,7 @@ func revertToManifest(kv *DB, mf *Manifest, idMap map[uint64]struct{}) error {
 			if err := os.Remove(filename); err != nil {
 				return y.Wrapf(err, "While removing table %d", id)
 			}
+			verifhook.FS("unlink", filename, 0, 0)
 		}
 	}
 
@@ -673,6 +675,7 @@ func (s *levelsController) subcompact(it y.Iterator, kr keyRange, cd compactDef,
 		}
 	}
 
+	verifhook.Ev("compact.discardTs", discardTs, uint64(cd.thisLevel.level)<<8|uint64(cd.nextLevel.level))
 	// Try to collect stats so that we can inform value log about GC. That would help us find which
 	// value log file should be GCed.
 	discardStats := make(map[uint32]int64)
@@ -1460,6 +1463,8 @@ func (s *levelsController) runCompactDef(id, l int, cd compactDef) (err error) {
 			err = decErr
 		}
 	}()
+	verifhook.Ev("compact.shape", uint64(thisLevel.level)<<32|uint64(nextLevel.level), uint64(len(cd.top))<<32|uint64(len(cd.bot)))
+	verifhook.Point("compact.afterBuild")
 	changeSet := buildChangeSet(&cd, newTables)
 
 	// We write to the manifest _before_ we delete files (and after we created files)
@@ -1467,6 +1472,7 @@ func (s *levelsController) runCompactDef(id, l int, cd compactDef) (err error) {
 		return err
 	}
 
+	verifhook.Point("compact.afterManifest")
 	getSizes := func(tables []*table.Table) int64 {
 		size := int64(0)
 		for _, i := range tables {
@@ -1488,9 +1494,11 @@ func (s *levelsController) runCompactDef(id, l int, cd compactDef) (err error) {
 	if err := nextLevel.replaceTables(cd.bot, newTables); err != nil {
 		return err
 	}
+	verifhook.Point("compact.afterReplace")
 	if err := thisLevel.deleteTables(cd.top); err != nil {
 		return err
 	}
+	verifhook.Point("compact.afterDelete")
 
 	// Note: For level 0, while doCompact is running, it is possible that new tables are added.
 	// However, the tables are added only to the end, so it is ok to just delete the first table.
